@@ -207,7 +207,9 @@ Definition lstep (P : params) (fixed : bool) (s : lsys) (t : nat) (ch : nat) : o
 Inductive opc :=
   | CStart | CCas | CFunc1 | CBody | CFunc2 | CStore | CLoadSeg | CLoad | CRetSeg | CFin | CDone.
 
-Record othread := { o_pc : opc; o_seen : nat }.
+(* o_calls: calls of muggle_call_once this thread still has to make after the current one (a thread may call
+   again after READY); o_rets: calls it has completed *)
+Record othread := { o_pc : opc; o_seen : nat; o_calls : nat; o_rets : nat }.
 Record osys := {
   o_n : nat;
   o_flag : Z;            (* 0 INIT, 1 WAIT, 2 READY *)
@@ -218,9 +220,9 @@ Record osys := {
   o_early : nat;         (* callers that returned before the body finished or without seeing its write *)
   o_thr : nat -> othread;
 }.
-Definition oinit (n : nat) : osys :=
+Definition oinit (n calls : nat) : osys :=
   {| o_n := n; o_flag := 0; o_stamp := 0; o_runs := 0; o_done := 0; o_dver := 0; o_early := 0;
-     o_thr := fun _ => {| o_pc := CStart; o_seen := 0 |} |}.
+     o_thr := fun _ => {| o_pc := CStart; o_seen := 0; o_calls := pred calls; o_rets := 0 |} |}.
 Definition oset (s : osys) (t : nat) (x : othread) : osys :=
   {| o_n := o_n s; o_flag := o_flag s; o_stamp := o_stamp s; o_runs := o_runs s; o_done := o_done s;
      o_dver := o_dver s; o_early := o_early s; o_thr := upd (o_thr s) t x |}.
@@ -231,7 +233,8 @@ Definition note_ret : nat := 6%nat.
 
 Definition ostep (P : params) (s : osys) (t : nat) (ch : nat) : option (osys * label) :=
   let x := o_thr s t in
-  let go p := oset s t {| o_pc := p; o_seen := o_seen x |} in
+  let mkt p sn := {| o_pc := p; o_seen := sn; o_calls := o_calls x; o_rets := o_rets x |} in
+  let go p := oset s t (mkt p (o_seen x)) in
   if Nat.leb (o_n s) t then None else
   match o_pc x with
   | CStart => Some (go CCas, LPlain [])
@@ -240,38 +243,39 @@ Definition ostep (P : params) (s : osys) (t : nat) (ch : nat) : option (osys * l
     if o_flag s =? 0 then
       Some ({| o_n := o_n s; o_flag := 1; o_stamp := rmw_stamp mo (o_seen x) (o_stamp s);
                o_runs := o_runs s; o_done := o_done s; o_dver := o_dver s; o_early := o_early s;
-               o_thr := upd (o_thr s) t {| o_pc := CFunc1; o_seen := acq_join mo (o_seen x) (o_stamp s) |} |},
+               o_thr := upd (o_thr s) t (mkt CFunc1 (acq_join mo (o_seen x) (o_stamp s))) |},
             LEv (Ev OCasS flag_cell mo 0 1 1))
     else Some (go CLoadSeg, LEv (Ev OCasS flag_cell mo (o_flag s) 1 0))
   | CFunc1 =>
     Some ({| o_n := o_n s; o_flag := o_flag s; o_stamp := o_stamp s; o_runs := S (o_runs s);
              o_done := o_done s; o_dver := o_dver s; o_early := o_early s;
-             o_thr := upd (o_thr s) t {| o_pc := CBody; o_seen := o_seen x |} |},
+             o_thr := upd (o_thr s) t (mkt CBody (o_seen x)) |},
           LPlain [(note_fbegin, 0)])
   | CBody => Some (go CFunc2, LEv (Ev OPlain 1%nat MoNone 0 0 0))
   | CFunc2 =>
     Some ({| o_n := o_n s; o_flag := o_flag s; o_stamp := o_stamp s; o_runs := o_runs s;
              o_done := 1; o_dver := S (o_dver s); o_early := o_early s;
-             o_thr := upd (o_thr s) t {| o_pc := CStore; o_seen := S (o_dver s) |} |},
+             o_thr := upd (o_thr s) t (mkt CStore (S (o_dver s))) |},
           LPlain [(note_fend, 0)])
   | CStore =>
     let mo := mo_once_store P in
     Some ({| o_n := o_n s; o_flag := 2; o_stamp := rel_stamp mo (o_seen x);
              o_runs := o_runs s; o_done := o_done s; o_dver := o_dver s; o_early := o_early s;
-             o_thr := upd (o_thr s) t {| o_pc := CRetSeg; o_seen := o_seen x |} |},
+             o_thr := upd (o_thr s) t (mkt CRetSeg (o_seen x)) |},
           LEv (Ev OStore flag_cell mo 2 0 0))
   | CLoadSeg => Some (go CLoad, LPlain [])
   | CLoad =>
     let mo := mo_once_load P in
-    let x' := {| o_pc := if o_flag s =? 2 then CRetSeg else CLoadSeg;
-                 o_seen := acq_join mo (o_seen x) (o_stamp s) |} in
+    let x' := mkt (if o_flag s =? 2 then CRetSeg else CLoadSeg) (acq_join mo (o_seen x) (o_stamp s)) in
     Some (oset s t x', LEv (Ev OLoad flag_cell mo (o_flag s) 0 0))
   | CRetSeg =>
     let good := (o_done s =? 1) && Nat.eqb (o_seen x) (o_dver s) in
     Some ({| o_n := o_n s; o_flag := o_flag s; o_stamp := o_stamp s; o_runs := o_runs s;
              o_done := o_done s; o_dver := o_dver s;
              o_early := if good then o_early s else S (o_early s);
-             o_thr := upd (o_thr s) t {| o_pc := CFin; o_seen := o_seen x |} |},
+             (* the caller returns; if it calls again the same plain segment runs up to the next compare-exchange *)
+             o_thr := upd (o_thr s) t {| o_pc := match o_calls x with O => CFin | S _ => CCas end;
+                                         o_seen := o_seen x; o_calls := pred (o_calls x); o_rets := S (o_rets x) |} |},
           LPlain [(note_ret, o_done s)])
   | CFin => Some (go CDone, LExit)
   | CDone => None
@@ -283,19 +287,34 @@ Definition ostep (P : params) (s : osys) (t : nat) (ch : nat) : option (osys * l
 Inductive rop := Retain | Release.
 Inductive rpc := RSeg | RCas (v des : Z) | RFin | RDone.
 Record rthread := { r_pc : rpc; r_ops : list rop; r_pend : list (nat * Z) }.
+(* muggle_ref_cnt_t = muggle_atomic_int = int (tied to the C types by ref_counter_type_matches_model):
+   `desired = v + 1` at v = INT_MAX is a signed overflow, i.e. undefined behaviour; the code has no refusal
+   there.  The model counts such computations in the ghost r_ovf (and goes on with the mathematical v + 1);
+   the theorems about the counter are stated for executions in which it stays 0, which is guaranteed when
+   the initial value plus the number of retains does not exceed ref_max. *)
+Definition ref_bits : Z := 32.
+Definition ref_max : Z := 2147483647.
 Record rsys := {
   r_n : nat;
   r_ref : Z;
+  r_ovf : nat;                  (* ghost: how many times v + 1 was computed at v >= ref_max (undefined in C) *)
   r_lin : list (rop * Z);       (* ghost: operations in linearisation order with their results *)
   r_thr : nat -> rthread;
 }.
 Definition rinit (n : nat) (v : Z) (scripts : nat -> list rop) : rsys :=
-  {| r_n := n; r_ref := v; r_lin := []; r_thr := fun t => {| r_pc := RSeg; r_ops := scripts t; r_pend := [] |} |}.
+  {| r_n := n; r_ref := v; r_ovf := 0; r_lin := []; r_thr := fun t => {| r_pc := RSeg; r_ops := scripts t; r_pend := [] |} |}.
 Definition ref_cell : nat := 0%nat.
 Definition note_retain : nat := 7%nat.
 Definition note_release : nat := 8%nat.
 Definition rnote (o : rop) : nat := match o with Retain => note_retain | Release => note_release end.
 Definition rdes (o : rop) (v : Z) : Z := match o with Retain => v + 1 | Release => v - 1 end.
+(* one pass through the loop body of muggle_ref_cnt_retain / _release as a function of the value read from
+   *ref: None = return -1 without touching the counter; Some (expected, desired, result once the
+   compare-exchange succeeds).  lib/props/c04_slice.py regenerates this function from the C text on every run
+   (gen_ref_retain / gen_ref_release, obligation ref_loop_body_matches_model); rbody_drives_rstep ties it to rstep. *)
+Definition rbody (o : rop) (v : Z) : option (Z * Z * Z) :=
+  if v =? 0 then None else Some (v, rdes o v, rdes o v).
+Definition rovf (o : rop) (v : Z) : bool := match o with Retain => ref_max <=? v | Release => false end.
 
 (* the plain segment: while the counter reads 0 every pending operation fails at once
    (no scheduling point); the first operation that reads v <> 0 stops at its CAS *)
@@ -319,7 +338,8 @@ Definition rstep (P : params) (s : rsys) (t : nat) (ch : nat) : option (rsys * l
     let (ns, ls) := rseg (r_ref s) (r_ops x) in
     let rest := rseg_rest (r_ref s) (r_ops x) in
     let pc' := match rest with [] => RFin | o :: _ => RCas (r_ref s) (rdes o (r_ref s)) end in
-    Some ({| r_n := r_n s; r_ref := r_ref s; r_lin := r_lin s ++ ls;
+    let ov := match rest with [] => false | o :: _ => rovf o (r_ref s) end in
+    Some ({| r_n := r_n s; r_ref := r_ref s; r_ovf := if ov then S (r_ovf s) else r_ovf s; r_lin := r_lin s ++ ls;
              r_thr := upd (r_thr s) t {| r_pc := pc'; r_ops := rest; r_pend := [] |} |}, LPlain (r_pend x ++ ns))
   | RCas v des =>
     match r_ops x with
@@ -328,15 +348,15 @@ Definition rstep (P : params) (s : rsys) (t : nat) (ch : nat) : option (rsys * l
       let mo := mo_ref_cas P in
       if r_ref s =? v then
         (* success: the operation returns des; its note is printed in the following segment *)
-        Some ({| r_n := r_n s; r_ref := des; r_lin := r_lin s ++ [(o, des)];
+        Some ({| r_n := r_n s; r_ref := des; r_ovf := r_ovf s; r_lin := r_lin s ++ [(o, des)];
                  r_thr := upd (r_thr s) t {| r_pc := RSeg; r_ops := rest; r_pend := [(rnote o, des)] |} |},
               LEv (Ev OCasS ref_cell mo v des 1))
       else
-        Some ({| r_n := r_n s; r_ref := r_ref s; r_lin := r_lin s;
+        Some ({| r_n := r_n s; r_ref := r_ref s; r_ovf := r_ovf s; r_lin := r_lin s;
                  r_thr := upd (r_thr s) t {| r_pc := RSeg; r_ops := r_ops x; r_pend := [] |} |},
               LEv (Ev OCasS ref_cell mo (r_ref s) des 0))
     end
-  | RFin => Some ({| r_n := r_n s; r_ref := r_ref s; r_lin := r_lin s;
+  | RFin => Some ({| r_n := r_n s; r_ref := r_ref s; r_ovf := r_ovf s; r_lin := r_lin s;
                      r_thr := upd (r_thr s) t {| r_pc := RDone; r_ops := r_ops x; r_pend := [] |} |}, LExit)
   | RDone => None
   end.
